@@ -131,9 +131,16 @@ func (this *Hnsw) Insert(id uuid.UUID, value math.Vector, metadata Metadata, ver
 		}
 	}
 
-	entrypoint = (*hnswVertex)(atomic.LoadPointer(&this.entrypoint))
-	if entrypoint != nil && vertex.level > entrypoint.level {
-		atomic.CompareAndSwapPointer(&this.entrypoint, this.entrypoint, unsafe.Pointer(vertex))
+	for {
+		entrypoint = (*hnswVertex)(atomic.LoadPointer(&this.entrypoint))
+		if entrypoint == nil || vertex.level <= entrypoint.level {
+			break
+		}
+		// Swap against the entrypoint that was just compared (not a plain,
+		// racy re-read of the field) and retry if another insert got in between.
+		if atomic.CompareAndSwapPointer(&this.entrypoint, unsafe.Pointer(entrypoint), unsafe.Pointer(vertex)) {
+			break
+		}
 	}
 
 	return nil
